@@ -781,6 +781,12 @@ func runReplay(path string) int {
 		Index    int    `json:"index"`
 		Race     bool   `json:"race"`
 		Procs    int    `json:"procs"`
+		Replay   struct {
+			Scenario json.RawMessage `json:"scenario"`
+			Case     json.RawMessage `json:"case"`
+			Chain    json.RawMessage `json:"chain"`
+			Job      *common.Job     `json:"job"`
+		} `json:"replay"`
 	}
 	if err := json.Unmarshal(b, &rf); err != nil {
 		fmt.Fprintln(os.Stderr, err)
@@ -805,12 +811,20 @@ func runReplay(path string) int {
 		if n, err := strconv.Atoi(v); err == nil {
 			tries = n
 		}
+	} else if rf.Race {
+		tries = 5
 	} else if scheduleDetermined(rf.Property) {
 		tries = 50
 	}
 	again := 0
 	for i := 0; i < tries; i++ {
 		job := common.Job{Prop: rf.Property, Tier: rf.Tier, Seed: rf.Seed, From: rf.Index, To: rf.Index + 1, Part: rf.Part, Race: rf.Race, Procs: rf.Procs, Replay: abs}
+		if isNull(rf.Replay.Scenario) && isNull(rf.Replay.Case) && isNull(rf.Replay.Chain) && rf.Replay.Job != nil {
+			// no self-contained case (race reports, crashes before the scenario was logged):
+			// re-run the seeded index range of the original job
+			job = *rf.Replay.Job
+			job.Replay = ""
+		}
 		oc := runJob(bin, job, workdir, i+1, 5*time.Minute)
 		hit := false
 		for _, r := range oc.results {
@@ -845,6 +859,11 @@ func runReplay(path string) int {
 		return 1
 	}
 	return 0
+}
+
+func isNull(r json.RawMessage) bool {
+	t := strings.TrimSpace(string(r))
+	return t == "" || t == "null"
 }
 
 func scheduleDetermined(prop string) bool {
